@@ -85,3 +85,31 @@ def selfcheck():
             assert np.isfinite(f(e, T)), (f.__name__, x)
     assert abs(mode_Cv(1e-9, 1000.0) / KB_EV - 1) < 1e-9
     assert mode_Cv(1.0, 1.0) == 0.0 and mode_S(1.0, 1.0) < 1e-300
+
+
+def supercell_covariance(fc, masses, T, factor_thz, cutoff_thz, hbar_ev_s, ev, amu, kb_ev, classical=False, pinv=False):
+    """Canonical displacement covariance <u u^T> (Angstrom^2) of a finite periodic supercell from a direct
+    diagonalisation of the 3N x 3N mass-weighted force-constant matrix.  Modes with |frequency| <= cutoff are left out
+    (imaginary modes enter with |omega|, as phonopy documents).  With pinv=True returns M^1/2 [sum 1/a^2 e e^T] M^1/2."""
+    n = len(masses)
+    m3 = np.repeat(np.asarray(masses, float), 3)
+    D = fc.transpose(0, 2, 1, 3).reshape(3 * n, 3 * n) / np.sqrt(m3[:, None] * m3[None, :])
+    D = (D + D.T) / 2
+    lam, e = np.linalg.eigh(D)
+    f = np.sqrt(np.abs(lam)) * factor_thz          # THz
+    keep = f > cutoff_thz
+    w = 2 * np.pi * f[keep] * 1e12                  # rad/s
+    if classical:
+        a2 = kb_ev * ev * T / w ** 2                # J s^2 = kg m^2
+    else:
+        x = hbar_ev_s * w / (kb_ev * T) if T > 0 else np.full_like(w, np.inf)
+        with np.errstate(over="ignore"):
+            nb = np.where(np.isinf(x), 0.0, 1.0 / np.expm1(x))
+        a2 = hbar_ev_s * ev / w * (0.5 + nb)
+    a2 = a2 / amu / 1e-20                           # amu Angstrom^2
+    ek = e[:, keep]
+    if pinv:
+        core = (ek / a2[None, :]) @ ek.T
+        return core * np.sqrt(m3[:, None] * m3[None, :])
+    core = (ek * a2[None, :]) @ ek.T
+    return core / np.sqrt(m3[:, None] * m3[None, :])
